@@ -29,7 +29,55 @@ def showOutcome (f : Bytes) (r : Outcome) : String :=
   | none => s!"ok v={hexField r.file}"
   | some e => if r.file = f then s!"err {e.name} same=1" else s!"err {e.name} v={hexField r.file}"
 
+/-- all pages of a byte string with their offsets, as far as they parse -/
+partial def parseAllOff (f : Bytes) (pos : Nat) (acc : List Rd) : List Rd :=
+  match readPage f pos with
+  | .ok (p, next) => parseAllOff f next (⟨p, pos⟩ :: acc)
+  | .error _ => acc.reverse
+
+def bit (s : String) : Bool := s == "1"
+
+/-- one page `complete:continued:first:last:sequence:serial:position:packets`, packets hex separated by
+'.', "-" an empty packet, "_" no packets -/
+def pageSpec (s : String) : Option Page :=
+  match s.splitOn ":" with
+  | [c, k, f, l, sq, sr, po, pk] =>
+    some { complete := bit c, continued := bit k, first := bit f, last := bit l, sequence := sq.toNat?.getD 0,
+           serial := sr.toNat?.getD 0, position := po.toInt?.getD 0,
+           packets := if pk == "_" then [] else (pk.splitOn ".").map parseHexField }
+  | _ => none
+
+/-- `new=` of op=replace: page specs separated by ';', "_" for no pages -/
+def pageSpecs (s : String) : List Page :=
+  if s == "_" || s == "" then [] else (s.splitOn ";").filterMap pageSpec
+
+/-- the API functions by themselves (C15): `preserve` = OggPage._from_packets_try_preserve(packets,
+pages of `data`), `replace` = OggPage.replace(fileobj, the pages of `data` with the indices `old`,
+`new`), `renumber` = OggPage.renumber(fileobj at `pos`, serial, start) -/
+def oggApiOp (a : Args) : Option String :=
+  match a.str "op" with
+  | "preserve" =>
+    let old := (parseAllOff (a.bytes "data") 0 []).map (·.page)
+    some <| match tryPreserve (hexList (a.str "pk" "_")) old with
+    | .error e => s!"err {e.name}"
+    | .ok new =>
+      match renderList new with
+      | .error e => s!"ok pages={descPages new} v=err-{e.name}"
+      | .ok bs => s!"ok pages={descPages new} v={hexField bs.flatten}"
+  | "replace" =>
+    let f := a.bytes "data"
+    let all := parseAllOff f 0 []
+    let old := (natList (a.str "old" "-")).filterMap fun i => all[i]?
+    some (showOutcome f (replace f old (pageSpecs (a.str "new" "_"))))
+  | "renumber" =>
+    let f := a.bytes "data"
+    some (showOutcome f (renumber (a.nat "serial") (f.length + 1) f (a.nat "pos") (a.nat "start")))
+  | _ => none
+
 def ogginjectOp (a : Args) : String :=
+  match oggApiOp a with
+  | some r => r
+  | none =>
   match a.str "op" with
   | "readall" =>
     let f := a.bytes "data"
